@@ -268,9 +268,15 @@ func rewritePackage(fset *token.FileSet, imp types.Importer, p listPkg, src, rep
 	for i, f := range files {
 		rel, _ := filepath.Rel(src, names[i])
 		fc := &fileCtx{fset: fset, info: info, file: f, relName: rel, need: map[string]bool{}, rep: rep, keep: map[string]bool{}}
-		if src, err := os.ReadFile(names[i]); err == nil && bytes.Contains(src, []byte("os.File")) {
-			fc.mentionsOSFile = true
-		}
+		// does this file name the type os.File explicitly? (then a wrapped handle would not type-check)
+		ast.Inspect(f, func(n ast.Node) bool {
+			if sel, ok := n.(*ast.SelectorExpr); ok && sel.Sel.Name == "File" {
+				if id, ok := sel.X.(*ast.Ident); ok && fc.pkgOf(id) == "os" {
+					fc.mentionsOSFile = true
+				}
+			}
+			return true
+		})
 		fc.rewriteSelectors(p.ImportPath)
 		fc.rewriteMapRanges()
 		if !nosync {
